@@ -238,7 +238,9 @@ class StateMachine(metaclass=StateMachineMetaclass):
             :ref:`listeners`.
         """
         # A listener that is already attached is not resolved again: its callbacks are registered.
-        listeners = tuple(o for o in listeners if o not in self._listeners)
+        # (Identity, not equality: two distinct listeners may well compare equal.)
+        attached = {id(o) for o in self._listeners}
+        listeners = tuple(o for o in listeners if id(o) not in attached)
         self._listeners.update({o: None for o in listeners})
         return self._add_listener(
             Listeners.from_listeners(Listener.from_obj(o) for o in listeners),
